@@ -47,7 +47,7 @@ def jobs(tier, seed):
         js.append({'name': 'string/%d' % n, 'kind': 'string', 'n': n})
     for n in range(0, (3 if tier == 'quick' else 4) + 1):
         for wl in range(0, 3):
-            if tier == 'quick' and wl == 2 and n > 2:
+            if tier == 'quick' and n + wl > 3:
                 continue
             js.append({'name': 'stream/n%d/ws%d' % (n, wl), 'kind': 'stream', 'n': n, 'wl': wl})
     js.sort(key=lambda j: -(j.get('n', 0) + j.get('wl', 0)))
@@ -220,7 +220,50 @@ def role(v):
     return 'normaliser:' + msg
 
 
+def confirm_stream(sc, replay):
+    """native: the real VaporettoTokenizer (Tantivy API) against the core pipeline run through the replay driver"""
+    text = sc['text']; ws = sc.get('wsconst', '')
+    res = replay.run([{'op': 'model', 'id': 'm', 'data': sc['model']}, {'op': 'model_dump', 'model': 'm'}])
+    data = res[-1].get('bytes')
+    r = replay.run_tantivy(data, ws, text)
+    if 'panic' in r or 'crash' in r:
+        return True, {'native_violations': ['token stream panicked: %s' % (r.get('panic') or r.get('stderr'))]}
+    if 'tokens' not in r:
+        return False, {'native': r}
+    toks = r['tokens']
+    bad = []
+    if text == '':
+        if toks:
+            bad.append('empty text yields no token')
+        return bool(bad), {'native_violations': bad}
+    norm = replay.run([{'op': 'fullwidth', 'text': text}])[0]['out']
+    ops = [{'op': 'model', 'id': 'm', 'data': sc['model']}, {'op': 'predictor', 'id': 'p', 'model': 'm', 'tags': False},
+           {'op': 'sentence', 'id': 's', 'kind': 'raw', 'text': norm}, {'op': 'predict', 's': 's', 'p': 'p'}, {'op': 'filter', 's': 's', 'kind': 'linebreaks'}]
+    for ch in ws:
+        ops.append({'op': 'filter', 's': 's', 'kind': 'graphemes'} if ch == 'G' else {'op': 'filter', 's': 's', 'kind': 'wsconst', 'arg': ch})
+    ops.append({'op': 'observe', 's': 's'})
+    ob = replay.run(ops)[-1]
+    if not isinstance(ob, dict) or 'boundaries' not in ob:
+        return False, {'native': ob}
+    offs = [0]
+    for c in text:
+        offs.append(offs[-1] + len(c.encode('utf-8')))
+    ends = [offs[i + 1] for i, b in enumerate(ob['boundaries']) if b == 1] + [offs[-1]]
+    tb = text.encode('utf-8')
+    prev = 0
+    if len(toks) != len(ends):
+        bad.append('%d tokens, the core pipeline yields %d' % (len(toks), len(ends)))
+    for k, (t, en) in enumerate(zip(toks, ends)):
+        if t['from'] != prev or t['to'] != en or t['position'] != k or t['text'].encode('utf-8') != tb[prev:en]:
+            bad.append('token %d is %r, the core pipeline gives bytes %d..%d' % (k, t, prev, en))
+            break
+        prev = en
+    return bool(bad), {'native_violations': bad, 'tokens': toks[:8], 'core_boundaries': ob['boundaries']}
+
+
 def confirm(sc, replay):
+    if sc.get('job', {}).get('kind') == 'stream':
+        return confirm_stream(sc, replay)
     res = replay.run(sc['ops'] + [{'op': 'fullwidth', 'text': ''}])
     r = res[0]
     if 'panic' in r:
